@@ -87,6 +87,18 @@ func judge(r *mon.Rec, src string, code int, b []byte) ref6.Result {
 		r.Violate("C05:value-mismatch:"+tree.KindAt(ws, gs), "library reads different values than the reference: "+tree.Diff(ws, gs), rp)
 		return res
 	}
+	// the result is the caller's: write all over it (see mon.Scribble); no later decode and no process-wide value may change
+	var target any
+	if code < 0 {
+		target, _ = dhcpv6.FromBytes(b)
+	} else {
+		target, _ = dhcpv6.ParseOption(dhcpv6.OptionCode(code), b)
+	}
+	mon.Scribble(target)
+	if ch := mon.CanariesChanged(); len(ch) > 0 {
+		r.Violate("C05:result-aliases-global", fmt.Sprintf("writing into the decoded value changed process-wide values %v: the decoder handed out shared storage", ch), rp)
+		return res
+	}
 	paths := res.Tree.Paths()
 	sort.Strings(paths)
 	kinds := map[string]int{}
@@ -137,6 +149,8 @@ func TestCheck(t *testing.T) {
 		r.Watchdog(20 * time.Second)
 	}
 	typed = v6util.TypedCodes()
+	mon.Canary("dhcpv6.AllDHCPRelayAgentsAndServers", (*[]byte)(&dhcpv6.AllDHCPRelayAgentsAndServers))
+	mon.Canary("dhcpv6.AllDHCPServers", (*[]byte)(&dhcpv6.AllDHCPServers))
 	var rp replay
 	if mon.ReplayCase(&rp) {
 		judge(r, "replay", rp.Code, mon.UnHex(rp.Wire))
